@@ -1196,6 +1196,10 @@ def fault_stream(ctx, frames, per_frame):
         for bv in bad_values:
             yield queue_declare(bytes([len(kb)]) + kb + bv)
             yield queue_declare(b'\x01aS' + struct.pack('>I', len(kb)) + kb + bytes([len(kb)]) + kb + bv)
+    for nwords in (16, 64, 300, 1000, 3000):       # a long chain of continuation flag words (legal, never sent by this library)
+        for word in (b'\x00\x01', b'\xff\xff', b'\x80\x01'):
+            p_ = b'\x00\x3c\x00\x00' + b'\x00' * 8 + word * nwords + b'\x00\x00'
+            yield b'\x02\x00\x01' + struct.pack('>I', len(p_)) + p_ + b'\xce'
     for words in (b'\x00\x01', b'\xff\xff', b'\x00\x01\x00\x01', b'\x80\x01\x00\x00'):
         p_ = b'\x00\x3c\x00\x00' + b'\x00' * 8 + words
         yield b'\x02\x00\x01' + struct.pack('>I', len(p_)) + p_ + b'\xce'
@@ -1291,7 +1295,14 @@ def c08_retained_case(seed, n):
     def batch():
         out = []
         for i in range(n):
-            if i % 2:
+            if i % 5 == 4:
+                # a foreign peer's millisecond timestamps, every one different: as the property and as a T field
+                ms = 2 ** 32 + r.getrandbits(44)
+                ms = min(ms, 253402300799999)
+                tblT = b'\x01tT' + struct.pack('>Q', 2 ** 32 + r.getrandbits(40))
+                payload = b'\x00\x3c\x00\x00' + struct.pack('>Q', i) + struct.pack('>H', 0x2040) + struct.pack('>I', len(tblT)) + tblT + struct.pack('>Q', ms)
+                out.append(refenc.envelope(2, 1, payload))
+            elif i % 2:
                 words = struct.pack('>H', r.getrandbits(15) << 1 | 1 & 0x0001 | 0x0001) + struct.pack('>H', r.getrandbits(15) << 1 | 1) + struct.pack('>H', r.getrandbits(15) << 1)
                 payload = b'\x00\x3c\x00\x00' + struct.pack('>Q', r.getrandbits(64)) + struct.pack('>H', 0x0001) + words
                 out.append(refenc.envelope(2, r.randrange(65536), payload))
@@ -1301,6 +1312,11 @@ def c08_retained_case(seed, n):
         return out
     sizes = []
     held = []
+    import warnings as _w
+    saved_filters, saved_show = list(_w.filters), _w.showwarning
+    _w.resetwarnings()                     # the interpreter's default warning behaviour, as in an application that set nothing
+    _w.simplefilter('default')
+    _w.showwarning = lambda *a, **k: None
     tracemalloc.start()
     try:
         for b_ in range(4):
@@ -1317,6 +1333,8 @@ def c08_retained_case(seed, n):
             sizes.append(total)
     finally:
         tracemalloc.stop()
+        _w.filters[:] = saved_filters
+        _w.showwarning = saved_show
     growth = [held[i + 1] - held[i] for i in range(1, 3)]
     if all(gr > 0.25 * sizes[i + 1] and gr > 20000 for i, gr in enumerate(growth, 1)):
         return ('retained memory levels off (a bounded cache is fine)', 'after batches of about %d bytes: %r bytes still held' % (sizes[1], held))
